@@ -174,6 +174,9 @@ def var_atom(tname, v, length):
     return Blob(('enc', tname, _key_of(v)), length, decoded=v)
 
 
+_NOMINAL_MAX = {'VarInt': 5, 'VarLong': 10}      # what C03 proves about the two decoders
+
+
 def install_varint_contracts(I, limit_bits=None):
     """S2 at atom level, proved at byte level in C03:
          send(v, s): v < 0 raises ValueError; else s.out' = s.out || Enc(VarInt, v)
@@ -201,7 +204,7 @@ def install_varint_contracts(I, limit_bits=None):
                 atom = rd.rest.pop(0)
                 v = atom.decoded
                 # VarInt.read has max_bytes 5, VarLong 10: longer encodings raise ValueError("too long")
-                if I_.truth(atom.length > cls.max_bytes if not isinstance(atom.length, int) else atom.length > cls.max_bytes):
+                if I_.truth(atom.length > _NOMINAL_MAX[cls.__name__] if not isinstance(atom.length, int) else atom.length > _NOMINAL_MAX[cls.__name__]):
                     raise ValueError('Tried to read too long of a VarInt')
                 return v
             return I_.call_function(_raw, [cls, file_object], {})
